@@ -1,7 +1,8 @@
 #!/bin/bash
-# usage: tools/try_patch.sh <patch> <PID> [<PID>...]   : apply to /repo working tree, run checks, revert.
+# usage: tools/try_patch.sh <patch> <PID> [<PID>...]   : apply to /repo's (or $JRSA_REPO's) working tree, run checks, revert.
 P=$1; shift
-cd /repo || exit 2
+R=${JRSA_REPO:-/repo}
+cd $R || exit 2
 if [ -n "$(git status --porcelain --untracked-files=no)" ]; then echo "/repo not clean"; exit 2; fi
 git apply "$P" || { echo "patch does not apply"; exit 3; }
 for pid in "$@"; do (cd /verif && JRSA_EVIDENCE_DIR=/var/tmp/jrsa-scratch-evidence ./check $pid | tail -4); done
